@@ -332,6 +332,10 @@ def rule_order(R):
                 sinks[c.bb] = "encode"
         for c in write_sites(f, code):
             sinks[c.bb] = "transport write"
+        for c in code.calls.values():
+            # tearing the handle down (latch, session-level disconnect handling) is a trace as well
+            if c.bb in code.reachable and (any(t in roles.latch_fns(f) for t in f.call_targets(c)) or c.is_("handle_disconnect")):
+                sinks[c.bb] = "handle teardown"
         if op == "disconnect_with":
             # validation is skipped only when the packet carries no property block at all
             extra = []
